@@ -125,13 +125,17 @@ func genReply(g *gen.G, op kmip.Enum) (kmip.Response, string) {
 	case "failed":
 		it.ResultStatus = kmip.RESULT_STATUS_OPERATION_FAILED
 		it.ResultReason = kmip.Enum([]uint32{1, 2, 4, 5, 0x100, 0, 77}[r.Intn(7)])
-		it.ResultMessage = []string{"", "no", "operation failed badly", "x y z"}[r.Intn(4)]
+		it.ResultMessage = []string{"", "no", "operation failed badly", "x y z", "quota: 100% of 5 keys used", "%s %d %v %!", "50%%", "bad name %s", "tab\tnewline\n\"quoted\"", "ünïcödé ключ"}[r.Intn(10)]
 		if r.Intn(2) == 0 {
 			it.ResponsePayload = nil
 		}
 	case "pending":
 		it.ResultStatus = kmip.Enum(2 + r.Intn(2))
 		it.ResponsePayload = nil
+		if r.Intn(2) == 0 {
+			it.ResultReason = kmip.Enum([]uint32{1, 2, 0x100}[r.Intn(3)])
+			it.ResultMessage = []string{"still working: 40% done", "undone"}[r.Intn(2)]
+		}
 	case "nopayload":
 		it.ResponsePayload = nil
 	case "wrongop":
@@ -297,6 +301,15 @@ func runC14(r *Result, d *drv.Driver, tier string, seed int64, replay string) {
 		}
 		// the property itself, judged on the reply bytes by a generic TTLV parse (no model involved): success is reported
 		// only for a reply with batch count 1, exactly one item, the requested operation and status Success
+		if strings.HasPrefix(got, "failure ") {
+			// a reported failure carries the reply's Result Reason and Result Message verbatim (again judged on the bytes)
+			if reason, msg, ok := replyReasonMessage(c.reply); ok {
+				want := fmt.Sprintf("failure %d %s", reason, hx(msg))
+				if got != want {
+					r.find(Finding{Kind: "violation", What: "the failure the Client reports does not carry the reply's result reason and message verbatim", Input: map[string]string{"operation": fmt.Sprint(uint32(c.op)), "reply": hx(c.reply), "kind": c.kind, "discoverVersions": fmt.Sprint(c.dv)}, Expect: want, Actual: got})
+				}
+			}
+		}
 		if strings.HasPrefix(got, "payload ") {
 			if why := notASuccessReply(c.reply, uint32(c.op)); why != "" {
 				r.find(Finding{Kind: "violation", What: "the Client reported success for a reply that " + why, Input: map[string]string{"operation": fmt.Sprint(uint32(c.op)), "reply": hx(c.reply), "kind": c.kind, "discoverVersions": fmt.Sprint(c.dv)}, Expect: "an error", Actual: got})
@@ -422,4 +435,33 @@ func notASuccessReply(b []byte, op uint32) string {
 		}
 	}
 	return ""
+}
+
+// replyReasonMessage reads Result Reason and Result Message of the single batch item of a well-formed reply (generic parse);
+// ok=false when the reply is not clearly a single-item response
+func replyReasonMessage(b []byte) (reason uint32, msg []byte, ok bool) {
+	top := mut.Parse(b)
+	if len(top) != 1 || top[0].Tag != 0x42007b || top[0].Typ != 1 || top[0].End != len(b) {
+		return 0, nil, false
+	}
+	var item *mut.Node
+	items := 0
+	for _, k := range top[0].Kids {
+		if k.Tag == 0x42000f {
+			items++
+			item = k
+		}
+	}
+	if items != 1 {
+		return 0, nil, false
+	}
+	for _, k := range item.Kids {
+		switch {
+		case k.Tag == 0x42007e && k.Typ == 5 && k.Len == 4:
+			reason = binary.BigEndian.Uint32(b[k.Off+8:])
+		case k.Tag == 0x42007d && k.Typ == 7:
+			msg = b[k.Off+8 : k.Off+8+int(k.Len)]
+		}
+	}
+	return reason, msg, true
 }
